@@ -1750,12 +1750,31 @@ func (vm *Vm) Call(argc int32, starArgs py.Object, starKwargs py.Object) error {
 
 	// log.Printf("%s(args=%#v, kwargs=%#v)", EvalGetFuncName(fn), args, kwargs)
 	// Call the function pushing the return on the stack
-	obj, err := callInternal(fn, args, kwargs, vm.frame)
+	obj, err := vm.callHandling(fn, args, kwargs)
 	if err != nil {
 		return err
 	}
 	vm.PUSH(obj)
 	return nil
+}
+
+// callHandling calls fn. If an exception is being handled and fn is a
+// python function (or a method bound to one) its frame inherits that
+// exception, as the frames of a thread share the exception state in
+// python
+func (vm *Vm) callHandling(fn py.Object, args py.Tuple, kwargs py.StringDict) (py.Object, error) {
+	if vm.exc.IsSet() {
+		f, ok := fn.(*py.Function)
+		if bm, isBound := fn.(*py.BoundMethod); isBound {
+			if f, ok = bm.Method.(*py.Function); ok {
+				args = append(py.Tuple{bm.Self}, args...)
+			}
+		}
+		if ok {
+			return evalCode(f.Context, f.Code, f.Globals, py.NewStringDict(), args, kwargs, f.Defaults, f.KwDefaults, f.Closure, vm.exc)
+		}
+	}
+	return callInternal(fn, args, kwargs, vm.frame)
 }
 
 // Unwinds the stack for a block
@@ -2126,6 +2145,13 @@ func tooManyPositional(co *py.Code, given, defcount int, fastlocals []py.Object)
 //
 // This is the equivalent of PyEval_EvalCode with closure support
 func EvalCode(ctx py.Context, co *py.Code, globals, locals py.StringDict, args []py.Object, kws py.StringDict, defs []py.Object, kwdefs py.StringDict, closure py.Tuple) (retval py.Object, err error) {
+	return evalCode(ctx, co, globals, locals, args, kws, defs, kwdefs, closure, py.ExceptionInfo{})
+}
+
+// evalCode is EvalCode for a call made while the caller is handling
+// the exception exc: the new frame starts with it as the exception
+// being handled, so that a bare raise in the callee raises it again
+func evalCode(ctx py.Context, co *py.Code, globals, locals py.StringDict, args []py.Object, kws py.StringDict, defs []py.Object, kwdefs py.StringDict, closure py.Tuple, exc py.ExceptionInfo) (retval py.Object, err error) {
 	total_args := int(co.Argcount + co.Kwonlyargcount)
 	n := len(args)
 	var kwdict py.StringDict
@@ -2251,6 +2277,7 @@ func EvalCode(ctx py.Context, co *py.Code, globals, locals py.StringDict, args [
 		return py.NewGenerator(f), nil
 	}
 
+	f.Exc = exc
 	return RunFrame(f)
 }
 
